@@ -92,7 +92,8 @@ def analytic(case):
         bounds = m.config.suggested_bounds()
         if ts == "q":
             bounds[pidx] = (-5.0, 10.0)
-        for main in datasets(mdl, zero=(mdl.kind == "poi" or ts != "q")):
+        # zero counts: only where every bin keeps a strictly positive expectation at the optimum (not srcr: the free background normalisation goes to 0)
+        for main in datasets(mdl, zero=(mdl.kind == "poi" or (ts != "q" and mdl.kind == "onoff"))):
             data = list(main) + mdl.nominal_aux()
             for mu in (MUS if ts != "q0" else [1.0]):
                 for dist in ("normal", "clipped_normal"):
